@@ -23,7 +23,7 @@ Inductive lay :=
 | LDocS (gap pre str post : lines)                    (* string statement: the constant occupies [str] *)
 | LDef (gap : lines) (decos : list (deco * lines)) (header : lines) (name : string) (is_async : bool) (body : list lay)
 | LCls (gap : lines) (decos : list (deco * lines)) (header : lines) (name : string) (body : list lay)
-| LIf (gap header : lines) (tc : bool) (body : list lay) (egap eheader : lines) (orelse : list lay)
+| LIf (gap header : lines) (tc : tcond) (body : list lay) (egap eheader : lines) (orelse : list lay)
 | LBlock (children : list lay)                        (* for / while / with / try / match: a sequence of clauses *)
 | LSub (gap header : lines) (handler : bool) (body : list lay).   (* one clause: header lines, then its block *)
 
@@ -206,7 +206,7 @@ Fixpoint dec_lay (fuel : nat) (s : sexp) {struct fuel} : option lay :=
         do g <- dec_lines gap; do ds <- as_list_of dec_decoline decos; do h <- dec_lines header;
         do b <- dl body; Some (LCls g ds h name b)
     | SList [SStr "if"; gap; header; tc; body; egap; eheader; orelse] =>
-        do g <- dec_lines gap; do h <- dec_lines header; do tc' <- as_bool tc; do b <- dl body;
+        do g <- dec_lines gap; do h <- dec_lines header; do tc' <- dec_tcond tc; do b <- dl body;
         do eg <- dec_lines egap; do eh <- dec_lines eheader; do o <- dl orelse; Some (LIf g h tc' b eg eh o)
     | SList [SStr "block"; ch] => do c <- dl ch; Some (LBlock c)
     | SList [SStr "sub"; gap; header; h; body] =>
